@@ -186,9 +186,11 @@ class Scratch:
         os.dup2(os.open(os.devnull, os.O_RDONLY), 0)   # nothing here may ever block on stdin
         # fixed name: path strings are part of the inputs (replay files, corpus); built in a private directory and
         # renamed into place, so concurrent runs see either nothing or the complete tree
-        self.root = '/tmp/match-c06-scratch'
+        # (versioned: "scratch2" added the paths with setuid / setgid / sticky bits and the executable file)
+        self.root = '/tmp/match-c06-scratch2'
         p = lambda *a: os.path.join(self.root, *a)
-        self.paths = [p('dir'), p('empty'), p('file'), p('other'), p('link'), p('t.tar'), p('missing'), p('dir', 'x')]
+        self.paths = [p('dir'), p('empty'), p('file'), p('other'), p('link'), p('t.tar'), p('missing'), p('dir', 'x'),
+                      p('suid'), p('sgid'), p('sticky'), p('exec')]
         if os.path.exists(p('t.tar')):
             return
         final = self.root
@@ -202,6 +204,14 @@ class Scratch:
         open(p('other'), 'w').write('abc')
         os.chmod(p('other'), 0o600)
         os.symlink('file', p('link'))
+        # modes whose first octal digit is not 0 (chmod by the owner; if the platform refuses a bit the oracle,
+        # which reads the mode back with stat.S_IMODE, still tells the truth)
+        for name, mode, is_dir in (('suid', 0o4755, False), ('sgid', 0o2644, False), ('sticky', 0o1777, True), ('exec', 0o755, False)):
+            if is_dir:
+                os.mkdir(p(name))
+            else:
+                open(p(name), 'w').write(name)
+            os.chmod(p(name), mode)
         with tarfile.open(p('t.tar'), 'w') as t:
             t.add(p('file'), 'file')
             t.add(p('other'), 'other')
@@ -282,6 +292,21 @@ def catalog():
         ('MatchesPredicate', lambda: M.MatchesPredicate(_pred_even, '%s is not even'), lambda v: v % 2 == 0),
         ('MatchesPredicateWithParams', lambda: M.MatchesPredicateWithParams(_pred_small, '{0} is not < {1}', 'Small')(3),
          lambda v: v < 3),
+        # 20, 21: the regex given as a string to MatchesException(type, "regex") (sees str(exception))
+        ('MatchesRegex', lambda: M.MatchesRegex('1'), lambda v: re.match('1', v) is not None),
+        ('MatchesRegex', lambda: M.MatchesRegex('-?[0-9]$'), lambda v: re.match('-?[0-9]$', v) is not None),
+        # 22..: permissions with / without the setuid, setgid, sticky digit
+        ('HasPermissions', lambda: M.HasPermissions('4755'), lambda v: perms(v) == '4755'),
+        ('HasPermissions', lambda: M.HasPermissions('0755'), lambda v: perms(v) == '0755'),
+        ('HasPermissions', lambda: M.HasPermissions('2644'), lambda v: perms(v) == '2644'),
+        ('HasPermissions', lambda: M.HasPermissions('1777'), lambda v: perms(v) == '1777'),
+        ('HasPermissions', lambda: M.HasPermissions('0777'), lambda v: perms(v) == '0777'),
+        # 27..: the same expectations given in another container / text type
+        ('TarballContains', lambda: M.TarballContains(('other', 'file')), lambda v: tar_names(v) == ['file', 'other']),
+        ('TarballContains', lambda: M.TarballContains(frozenset(['file'])), lambda v: tar_names(v) == ['file']),
+        ('DirContains', lambda: M.DirContains(('x', 'y')), lambda v: os.path.isdir(v) and sorted(os.listdir(v)) == ['x', 'y']),
+        ('DirContains', lambda: M.DirContains(set()), lambda v: os.path.isdir(v) and os.listdir(v) == []),
+        ('SamePath', lambda: M.SamePath(P(4)), lambda v: real(v) == real(P(4))),
     ]
     return C
 
@@ -303,7 +328,8 @@ PREDS = [_p_falsy, _p_never, _p_is_none]
 PRED_MSG = {'one': '%s is not ok', 'zero': 'not ok', 'empty': '', 'two': '%s and %s'}
 
 # which kind of matchee each catalog row is meant for (generator hint only)
-OPQ_FOR = {'str': [0, 1, 3, 4], 'bytes': [2], 'path': list(range(5, 15)), 'fn': [15, 16, 17], 'int': [18, 19]}
+OPQ_FOR = {'str': [0, 1, 3, 4, 20, 21], 'bytes': [2], 'path': list(range(5, 15)) + [12, 22, 22, 23, 23, 24, 25, 26] + list(range(27, 32)),
+           'fn': [15, 16, 17], 'int': [18, 19]}
 
 
 class UnsafeInput(BaseException):
@@ -349,6 +375,7 @@ class C06(Prop):
         'Python semantics of ==, <, in, len, iter, startswith, isinstance, getattr on the value universe are modelled (TTV/Model/Matchers.lean), not verified',
         'dicts/objects are built with ascending keys and objects/exceptions/callables are interned per case, so that == and `is` are structural equality in the model',
         'opaque leaves (MatchesRegex, DocTestMatches, filesystem matchers, Warnings/IsDeprecated/WarningMessage, MatchesPredicate[WithParams]) are tested against an independent oracle, not proved',
+        'the scratch directory of the filesystem leaves holds a setuid file (4755), a setgid file (2644), a sticky directory (1777) besides plain modes; the permission oracle is stat.S_IMODE read back from the path',
         'the two builds of an expression differ in the iteration order of set(<matchers of a MatchesSetwise>), forced by re-allocating the matcher objects until list(set(..)) has the order given in the input (the verdict must not depend on it)',
         'MatchesSetwise asks every matcher about every value once, value by value (the first exception propagates); the pairing algorithm itself is abstracted to its outcome',
         'the class of an exception propagating out of an expression that contains a dict matcher is compared as Any (set-of-str iteration order is randomised per process; non-dict matchees make the three parts raise different classes)',
@@ -541,8 +568,6 @@ class C06(Prop):
 
     def oracle_verdict(self, k, pv):
         name, _, oracle = self.cat()[k] if k < len(self.cat()) else (None, None, None)
-        if k in (20, 21):   # regex value of MatchesException(type, "regex")
-            oracle = lambda v, pat=self.RE_PATTERNS[k]: re.match(pat, v) is not None
         try:
             return 'match' if oracle(pv) else 'mismatch'
         except BaseException as e:
@@ -683,8 +708,13 @@ class C06(Prop):
     # ----- generators
     def gen(self, rng, tier):
         g = Gen(rng, self)
-        if rng.random() < 0.14:
+        x = rng.random()
+        if x < 0.14:
             return pairing_case(rng)
+        if x < 0.20:
+            inp = self.complete(fs_case(rng))
+            if inp is not None:
+                return inp
         depth = rng.choice([0, 1, 1, 2, 2, 2, 3, 3, 4])
         while True:
             v = g.value()
@@ -728,6 +758,12 @@ class C06(Prop):
         else:
             f.append('trace:' + str(trace[0]))
         f += greedy_report(m, v)
+        if isinstance(v, list) and v[0] == 's' and len(v) > 20:
+            name = ''.join(map(chr, v[1:])).rsplit('/', 1)[-1]
+            if name in ('suid', 'sgid', 'sticky'):
+                f.append('path:special-mode-bits')
+                if m[0] == 'opq' and m[1] in PERM_ROWS:
+                    f.append('HasPermissions-on-special-bits')
         s = repr(m)
         for h in ("'setwise'", "'opq'", "'pred'", "'dict'", "'struct'", "'raises'", "'exctypeV'", "'listwise'", "'same'"):
             if h in s:
@@ -798,6 +834,34 @@ def pairing_case(r):
         m, v = ['allmatch', m], ['l', v, v]
     elif x < 0.3:
         m = ['annot', m]
+    return [m, v]
+
+
+PERM_ROWS = [12, 22, 23, 24, 25, 26]
+
+
+def fs_case(r):
+    """a filesystem matcher (permission expectations with and without the setuid/setgid/sticky digit twice as likely)
+    on a path of the scratch directory (paths with special mode bits twice as likely), alone or under a combinator"""
+    S = Scratch.get()
+    path = lambda: ['s'] + [ord(c) for c in S.path(r.choice(list(range(len(S.paths))) + [8, 9, 10, 11]))]
+    row = lambda: ['opq', r.choice(OPQ_FOR['path'] + PERM_ROWS)]
+    v = path()
+    x = r.random()
+    if x < 0.45:
+        m = row()
+    elif x < 0.55:
+        m = ['not', row()]
+    elif x < 0.7:
+        m = [r.choice(['any', 'any', 'all'])] + ([r.random() < 0.3] if False else [])
+        m = (['all', r.random() < 0.3] if r.random() < 0.4 else ['any']) + [row() for _ in range(r.choice([2, 2, 3]))]
+    elif x < 0.8:
+        m = ['annot', row()]
+    elif x < 0.9:
+        m, v = [r.choice(['allmatch', 'anymatch']), row()], ['l'] + [path() for _ in range(r.choice([1, 2, 3]))]
+    else:
+        ps = [path() for _ in range(2)]
+        m, v = ['listwise', False, row(), row()], ['l'] + ps
     return [m, v]
 
 
@@ -943,7 +1007,7 @@ class Gen:
     def str_(self):
         r = self.r
         if r.random() < 0.25:
-            return ['s'] + [ord(c) for c in Scratch.get().path(r.randrange(8))]
+            return ['s'] + [ord(c) for c in Scratch.get().path(r.randrange(len(Scratch.get().paths)))]
         return ['s'] + [r.choice([97, 97, 98, 98, 99, 10, 233]) for _ in range(r.choice([0, 1, 1, 2, 2, 3, 4]))]
 
     def bytes_(self):
